@@ -586,29 +586,33 @@ def base_workspace(rng, big=False, t0=T0):
     # the last two phrases are made of characters `da` defines (its single-character rows below), so the preset
     # vocabulary really contributes entries to the table of `da`
     w.put("shared/essay.txt", {"kind": "essay", "rows": [["".join(rng.choice(HAN) for _ in range(2)), rng.randint(1, 500)] for _ in range(12)]
-                               + [[HAN[0] + HAN[1], 300], [HAN[2] + HAN[4] + HAN[3], 200], ["", 5]]})
+                               + [[HAN[0] + HAN[1], 300], [HAN[2] + HAN[4] + HAN[3], 200], ["", 5],
+                                  # phrases `da` can encode and does not list itself: they reach its table through the vocabulary only
+                                  [HAN[5] + HAN[6], 150], [HAN[7] + HAN[8] + HAN[9], 40]]})
     # a row whose text is two Latin words: the tab and a space can trade places (see ws_tab)
     w.put("shared/dx.dict.yaml", {"kind": "dict", "name": "dx", "rows": rows(4, sy_a) + [["ok a", "ba", 5]]})
     w.put("shared/da.dict.yaml", {"kind": "dict", "name": "da", "vocab": True, "imports": ["dx"], "rows": rows(nrows, sy_a, 2) + [[HAN[i], s, 50 + i] for i, s in enumerate(sy_a)]
                                   # rows that take their weight from the preset vocabulary: none given, a percentage
                                   + [[HAN[0] + HAN[1], "a ai"], [HAN[2] + HAN[4] + HAN[3], "an bo ba", "50%"]]})
-    # a pack that lets in the vocabulary's phrases above a weight only (one of the two it could encode)
-    w.put("shared/pk1.dict.yaml", {"kind": "dict", "name": "pk1", "vocab": True, "min_phrase_weight": 250,
-                                   "rows": rows(3, sy_a, 2) + [[HAN[i], sy_a[i], 5] for i in range(5)]})
-    w.put("shared/pk2.dict.yaml", {"kind": "dict", "name": "pk2", "rows": rows(3, sy_a, 3)})
+    # two packs on one *named* vocabulary (`vocabulary: lexicon`), the one listed first with a filter that lets one of its three
+    # encodable phrases in, the second without any: what the first asks of the vocabulary must not stick to the second
+    pk_chars = [[HAN[30 + i], sy_a[i], 5] for i in range(5)]
+    w.put("shared/pk1.dict.yaml", {"kind": "dict", "name": "pk1", "vocab": True, "vocabulary": "lexicon", "min_phrase_weight": 250,
+                                   "rows": rows(3, sy_a, 2) + pk_chars})
+    w.put("shared/pk2.dict.yaml", {"kind": "dict", "name": "pk2", "vocab": True, "vocabulary": "lexicon", "rows": rows(3, sy_a, 3) + pk_chars})
     # `db` uses the preset vocabulary too, with filters that let none of its phrases in: what one dictionary asks of the
     # vocabulary must not stick to the next dictionary compiled in the same deployment
     w.put("shared/db.dict.yaml", {"kind": "dict", "name": "db", "sort": "original", "columns": ["text", "code"],
-                                  "vocab": True, "vocabulary": "lexicon", "max_phrase_length": 1, "min_phrase_weight": 100000,
+                                  "vocab": True, "max_phrase_length": 1, "min_phrase_weight": 100000,
                                   "rows": [[HAN[20 + i], "".join(rng.choice("abcd") for _ in range(rng.randint(1, 3)))] for i in range(nrows)]
                                   + [["go to", "ab"]]})
     w.put("shared/common.yaml", {"kind": "config", "rules": ["derive/^zh/z/", "derive/^ch/c/"]})
     # sources a compiled artefact depends on without naming them where one looks first: a preset reached through
     # `key_binder/import_preset` (sb), a patch kept in a file of its own (`__patch: tweaks:/patch`, sc), a vocabulary
-    # file of another name (`vocabulary: lexicon`, db)
+    # file of another name (`vocabulary: lexicon`, the packs pk1 and pk2; `db` and `da` share the preset one)
     w.put("shared/kb.yaml", {"kind": "preset", "rows": [["Control+k", "Escape"], ["Control+j", "Return"]]})
     w.put("shared/tweaks.yaml", {"kind": "custom", "patch": [["menu/page_size", 6]]})
-    w.put("shared/lexicon.txt", {"kind": "essay", "rows": [[HAN[20] + HAN[21], 50], [HAN[22], 7]]})
+    w.put("shared/lexicon.txt", {"kind": "essay", "rows": [[HAN[30] + HAN[31], 300], [HAN[32] + HAN[33], 50], [HAN[30] + HAN[34], 7], [HAN[22], 9]]})
     w.put("shared/sa.schema.yaml", {"kind": "schema", "sid": "sa", "dict": "da", "packs": ["pk1"], "deps": ["sc"],
                                     "algebra": ["abbrev/^([a-z]).+$/$1/"], "include": "common", "pad": 600 if big else 0})
     w.put("shared/sb.schema.yaml", {"kind": "schema", "sid": "sb", "dict": "db", "style": "table", "import_preset": "kb"})
@@ -742,7 +746,7 @@ def gen_edit(rng, w, extra=False):
             elif f["kind"] == "custom":
                 f["patch"] = [["menu/page_size", rng.choice([x for x in range(3, 10) if ["menu/page_size", x] not in f["patch"]])]]
             else:
-                f["rows"] = f["rows"] + [[rng.choice(HAN[20:30]) + rng.choice(HAN[20:30]), rng.randint(1, 90)]]
+                f["rows"] = f["rows"] + [[rng.choice(HAN[30:35]) + rng.choice(HAN[30:35]), rng.randint(1, 500)]]
             w.put(rel, f)
             return "indirect %s" % rel
         if k == "indirect_custom":
